@@ -20,11 +20,11 @@ type Reader struct {
 	data []byte
 	pos  int64
 
-	Chunk     int           // max bytes per Read (0 = unlimited)
-	FailAt    int64         // 1-based Read call index at which FailErr is returned (0 = never)
-	FailErr   error         // error returned at FailAt
-	DelayAt   map[int64]time.Duration // delay before serving the read that starts at this offset
-	OnRead    func(off int64, n int)  // called after every successful Read
+	Chunk   int                     // max bytes per Read (0 = unlimited)
+	FailAt  int64                   // 1-based Read call index at which FailErr is returned (0 = never)
+	FailErr error                   // error returned at FailAt
+	DelayAt map[int64]time.Duration // delay before serving the read that starts at this offset
+	OnRead  func(off int64, n int)  // called after every successful Read
 
 	bytes atomic.Int64
 	calls atomic.Int64
